@@ -20,6 +20,12 @@ theorem quorum_constants :
     votesThreshold = 66 ∧ votesDivisor = 100 ∧ tallyCmp = .lt ∧ tallyTotalFromStore = true ∧ tallySkipsUnregistered = true := by
   decide
 
+/-- where the two sides of the comparison come from: the tally adds exactly `GetPower()` of every found voter, the recorded
+total is the sum of `GetPower()` over the ONLINE oracles, and `GetPower` is the truncating quotient
+`DelegateAmount / DefaultPowerReduction` — the same unit on both sides (`Oracle.power`, `onlinePower`, `votePower`) -/
+theorem quorum_power_sources :
+    tallyAddsGetPower = true ∧ totalSumsOnlineGetPower = true ∧ getPowerTruncates = true ∧ 0 < powerReduction := by decide
+
 /-- the expression read off `TryAttestation` (helpers inlined) evaluates to `66 * total / 100` for EVERY total: multiply
 first, then truncate — e.g. `(total / 100) * 66` does not satisfy this -/
 theorem required_eq (total : Nat) : required total = 66 * total / 100 := by
